@@ -5,6 +5,7 @@ cd "$(dirname "$0")"
 export GOFLAGS=-mod=mod GOPROXY=off GOSUMDB=off GOTOOLCHAIN=local
 mkdir -p bin work evidence replay
 (cd d2vc && go1.26.8 build -o ../bin/d2vc .)
+(cd tools/validate_externals && go1.26.8 build -o ../../bin/validate_externals .)
 printf '(set-logic ALL)(declare-const x Int)(assert (> x 1))(check-sat)\n' > work/.probe.smt2
 for s in z3 z3-new cvc5; do
   out=$($s work/.probe.smt2 2>&1 | grep -v "^work" | tail -1)
